@@ -71,7 +71,8 @@ def result_propagated(an, cs):
             n_err += 1
             want1 = T.agg("adt", "result::Result", 1, "Err", [T.call("convert::From::from", (), [T.payload(R, "Err")])])
             want2 = T.agg("adt", "result::Result", 1, "Err", [T.payload(R, "Err")])
-            if t is not want1 and t is not want2:
+            cands = {want1, want2, an.simp(want1, st.facts), an.simp(want2, st.facts)}
+            if t not in cands:
                 return False, "an outcome reached with the I/O result being Err returns %s instead of that error" % pp(t)[:160]
     if n_err == 0:
         return False, "no outcome of the function carries the error of this call"
